@@ -101,3 +101,33 @@ def replay_c(payload):
 
 
 replay = replay_c
+
+
+# ------------------------------------------------------------------ negative controls (engine/cvc/selftest.py)
+
+class _WrongInc(CT.L1sTimeInc):
+    """deliberately wrong: claims T2 counts modulo 27"""
+
+    def ensures(self, c, old, new, ret):
+        fn1 = (c.fn0 + c.a.delta_fn) % G.HYPERFRAME
+        return [("t2_mod27", new.get(c.a.time, "t2") == fn1 % 27)]
+
+
+class _WrongRecompose(CT.GsmTime2Fn):
+    """deliberately wrong: claims the result is f + 1"""
+
+    def ensures(self, c, old, new, ret):
+        return [("returns_f_plus_1", ret == c.f + 1)]
+
+
+WRONG_POSTS = [
+    ("l1s_time_inc: T2 modulo 27", lambda run: K.verify(run, ID, frontend.parse_file(CT.SYNC, "fw"), _WrongInc), "post.t2_mod27"),
+    ("gsm_gsmtime2fn: returns f+1", lambda run: K.verify(run, ID, frontend.parse_file(CT.GSM_UTILS, "host"), _WrongRecompose),
+     "post.returns_f_plus_1"),
+]
+MUTANTS = [
+    (CT.SYNC, "if (time->t2 == 0)", "if (time->t3 == 0)", "l1s_time_inc_post.t1"),
+    (CT.GSM_UTILS, "(time->t3 - time->t2 + 26) % 26", "(time->t3 - time->t2) % 26", "gsm_gsmtime2fn_post.returns_f"),
+    (CT.GSM_UTILS, "time->t3 = time->fn % 51;", "time->t3 = time->fn % 52;", "gsm_fn2gsmtime_post.t3"),
+    (CT.SYNC, "ADD_MODULO(time->fn, delta_fn, GSM_MAX_FN);", "ADD_MODULO(time->fn, delta_fn, GSM_MAX_FN + 1);", "l1s_time_inc_post.fn"),
+]
